@@ -69,6 +69,8 @@ type FuncSpec struct {
 	Unlocked  bool             // callback must be invoked with no level>=1 lock held
 	Covers    []*Clause
 	Decreases []*Clause
+	Alias     string
+	EffectStruct string // for `effect fields`: the struct whose fields are listed (effectstruct NAME)
 }
 
 type GhostFn struct {
@@ -104,6 +106,9 @@ type SpecDB struct {
 	LockInvs  []*LockInv
 	Levels    map[string]int // "Struct.mu" -> level
 	Defs      map[string]*SpecDef
+	InitWriters map[string]bool
+	ImmutableProps map[string][]string
+	Atomic map[string][]string
 	Files     []string
 }
 
@@ -116,13 +121,13 @@ type SpecDef struct {
 
 func NewSpecDB() *SpecDB {
 	return &SpecDB{Funcs: map[string]*FuncSpec{}, Callbacks: map[string]*FuncSpec{}, Methods: map[string]*FuncSpec{},
-		Ghosts: map[string]*GhostFn{}, Immutable: map[string]bool{}, Levels: map[string]int{}, Defs: map[string]*SpecDef{}}
+		Ghosts: map[string]*GhostFn{}, Immutable: map[string]bool{}, Levels: map[string]int{}, Defs: map[string]*SpecDef{}, InitWriters: map[string]bool{}, ImmutableProps: map[string][]string{}, Atomic: map[string][]string{}}
 }
 
 var keywords = map[string]bool{"func": true, "callback": true, "method": true, "props": true, "requires": true,
 	"ensures": true, "onpanic": true, "loop": true, "at": true, "maypanic": true, "effect": true, "trusted": true,
 	"ghost": true, "axiom": true, "event": true, "guarded": true, "immutable": true, "lockinv": true, "level": true,
-	"inline": true, "def": true, "unlocked": true, "cover": true}
+	"inline": true, "def": true, "unlocked": true, "cover": true, "alias": true, "initwriter": true, "atomic": true, "effectstruct": true}
 
 var reLabel = regexp.MustCompile(`^\[([^\]]+)\]\s*`)
 var reProps = regexp.MustCompile(`^\{([^}]*)\}\s*`)
@@ -203,6 +208,10 @@ func (db *SpecDB) LoadFile(path string) error {
 			cur.Inline = true
 		case "unlocked":
 			cur.Unlocked = true
+		case "alias":
+			cur.Alias = strings.TrimSpace(rest)
+		case "effectstruct":
+			cur.EffectStruct = strings.TrimSpace(rest)
 		case "effect":
 			cur.Effect = strings.TrimSpace(rest)
 		case "requires", "ensures", "onpanic", "cover":
@@ -295,7 +304,7 @@ func (db *SpecDB) LoadFile(path string) error {
 			}
 			db.Axioms = append(db.Axioms, c)
 		case "event":
-			m := regexp.MustCompile(`^(\w+)\s*:=\s*call\s+(\S+)(?:\s+key\s+(.*))?$`).FindStringSubmatch(rest)
+			m := regexp.MustCompile(`^(\w+)\s*:=\s*call\s+(.+?)(?:\s+key\s+(.*))?$`).FindStringSubmatch(rest)
 			if m == nil {
 				return fail(fmt.Errorf("bad event decl"))
 			}
@@ -314,9 +323,23 @@ func (db *SpecDB) LoadFile(path string) error {
 				return fail(fmt.Errorf("bad guarded decl"))
 			}
 			db.Guarded = append(db.Guarded, GuardDecl{m[1], m[2], m[3], m[4]})
-		case "immutable":
+		case "immutable", "atomic":
+			var props []string
+			if m := reProps.FindStringSubmatch(rest); m != nil {
+				props = strings.Fields(strings.ReplaceAll(m[1], ",", " "))
+				rest = rest[len(m[0]):]
+			}
 			for _, f := range strings.Fields(strings.ReplaceAll(rest, ",", " ")) {
-				db.Immutable[f] = true
+				if kw == "immutable" {
+					db.Immutable[f] = true
+					db.ImmutableProps[f] = props
+				} else {
+					db.Atomic[f] = props
+				}
+			}
+		case "initwriter":
+			for _, f := range strings.Fields(strings.ReplaceAll(rest, ",", " ")) {
+				db.InitWriters[f] = true
 			}
 		case "level":
 			a, b := splitWord(rest)
@@ -393,9 +416,10 @@ type SE interface{}
 type SEImp struct{ A, B SE }
 type SEIff struct{ A, B SE }
 type SEQuant struct {
-	Forall bool
-	Vars   []QVar
-	Body   SE
+	Forall   bool
+	Vars     []QVar
+	Body     SE
+	Triggers []SE
 }
 type QVar struct {
 	Name string
@@ -426,11 +450,34 @@ func parseSE(text string) (SE, error) {
 				}
 				vars = append(vars, QVar{f[0], f[1]})
 			}
-			body, err := parseSE(text[i+2:])
+			rest := strings.TrimSpace(text[i+2:])
+			var trig []SE
+			if strings.HasPrefix(rest, "{") {
+				depth, j := 0, 0
+				for j = 0; j < len(rest); j++ {
+					if rest[j] == '{' {
+						depth++
+					} else if rest[j] == '}' {
+						depth--
+						if depth == 0 {
+							break
+						}
+					}
+				}
+				for _, te := range splitTopLevel(rest[1:j], ',') {
+					t, err := parseSE(te)
+					if err != nil {
+						return nil, err
+					}
+					trig = append(trig, t)
+				}
+				rest = rest[j+1:]
+			}
+			body, err := parseSE(rest)
 			if err != nil {
 				return nil, err
 			}
-			return &SEQuant{Forall: q == "forall", Vars: vars, Body: body}, nil
+			return &SEQuant{Forall: q == "forall", Vars: vars, Body: body, Triggers: trig}, nil
 		}
 	}
 	if i := topLevelIndex(text, "<==>"); i >= 0 {
